@@ -149,10 +149,12 @@ func GenRandom(out string, seed int64, n, maxn, nq int) error {
 			tr := []int{0, 400, 2}
 			switch r.Intn(6) {
 			case 0:
-				tr = []int{0, r.Intn(60), 2}
+				tr = []int{0, 1 + r.Intn(60), 2}
 			case 1:
+				// tmax > tmin: a range of length zero crosses nothing by the
+				// library's box test and is not a ray query
 				a := r.Intn(40)
-				tr = []int{a, a + r.Intn(60), 2}
+				tr = []int{a, a + 1 + r.Intn(60), 2}
 			case 2:
 				tr = []int{1, 200000, 1000}
 			}
